@@ -29,10 +29,10 @@ def check_rewrites(ck: Checker, den: Denotations, prefix='C14'):
     mod, dnode, table = rw.find_convertors(ck)
     TPL, IDX, BLK = f'{prefix}.TPL', f'{prefix}.IDX', f'{prefix}.BLK'
     for tname, (hmod, hname, knode, vnode) in table.items():
-        h = hmod.func(hname)
+        h = table.nodes[tname]
         for operands in operand_cases(tname):
             cons = f'{hname} on {tname}{operands}'
-            before, c, err = rw.run_converter(repo, den, hmod, hname, tname, operands)
+            before, c, err = rw.run_converter(repo, den, hmod, hname, tname, operands, call=table.calls[tname], it=table.interp)
             if err:
                 ck.bad(TPL, hmod, h, f'{tname}{operands} is rewritten', f'converter rejects a legal gate ({err})', construct=cons)
                 continue
@@ -126,8 +126,8 @@ def run(ck: Checker):
     for t in ('ALWAYS_TRUE', 'ALWAYS_FALSE'):
         if t in table:
             hmod, hname, _, _ = table[t]
-            h = hmod.func(hname)
-            ok = any(call_name(cl) == 'input_at_index' for cl in calls_in(h))
+            h = table.nodes[t]
+            ok = isinstance(h, ast.FunctionDef) and any(call_name(cl) == 'input_at_index' for cl in calls_in(h))
             ck.decide(True if ok else None, 'C14.TPL', hmod, h, f'{t} is rewritten over an existing input obtained through input_at_index (raises when there is none)',
                       'constant converter does not obtain its helper input through input_at_index', construct=f'{hname} first input', covered_by='C14.TPL fold of the constant converters (a circuit without inputs raises)')
 
